@@ -87,7 +87,7 @@ def cached_worker(job):
         return worker(job)
     cdir = os.path.join(HERE, '.cache')
     os.makedirs(cdir, exist_ok=True)
-    key = hashlib.sha256(('%s|%s|%s|%s' % (tree_hash(), target, tier, seed)).encode()).hexdigest()
+    key = hashlib.sha256(('%s|%s|%s' % (tree_hash(), target, tier)).encode()).hexdigest()
     path = os.path.join(cdir, key + '.json')
     if os.path.exists(path):
         try:
